@@ -10,7 +10,9 @@
    Source-derived switches ([srcp], generated into Gen/ProxyTokens.v on every run):
      loop_bound    : the `for i := 0; i < 10; i++` of OnReceive
      min_budget    : retiesRemaining default (3) of newRetryState
-     reset_guarded : whether retryState.reset() only releases a reservation it holds *)
+     reset_guarded : whether retryState.reset() only releases a reservation it holds
+     direct_clears_again : whether processError's direct-response branch cancels a pending re-match / re-choose-host
+     direct_cancels_retry : whether that branch releases the retry reservation and cancels a retry set up in the same call *)
 From Coq Require Import List ZArith Bool Arith Lia.
 From RecordUpdate Require Import RecordSet.
 Import ListNotations RecordSetNotations.
@@ -32,7 +34,8 @@ Record sfilter := { sf_verdicts : list verdict (* VContinue | VStop | VTerm *) }
 
 Inductive route := RouteNone | RouteDirect (code : Z) (body : bool) | RouteNoCluster | RouteForward.
 
-Record srcp := { loop_bound : nat; min_budget : nat; reset_guarded : bool; reason_code : reason -> Z }.
+Record srcp := { loop_bound : nat; min_budget : nat; reset_guarded : bool; direct_clears_again : bool; direct_cancels_retry : bool;
+  reason_code : reason -> Z }.
 
 Record cfg := {
   c_oneway : bool; c_data : bool; c_trailers : bool;
@@ -44,6 +47,12 @@ Record cfg := {
   c_pool : list poolres;           (* result of the k-th ConnectionPool.NewStream call; PoolOk beyond the list *)
   c_delay : list phase             (* filter phases whose first entry is slow (a filter call that takes time) *)
 }.
+
+#[export] Instance eta_cfg : Settable _ := settable! Build_cfg
+  <c_oneway; c_data; c_trailers; c_route; c_nhosts; c_retry_on; c_num_retries; c_codes; c_try_timeout; c_max_retries; c_recv; c_send;
+   c_pool; c_delay>.
+#[export] Instance eta_srcp : Settable _ := settable! Build_srcp
+  <loop_bound; min_budget; reset_guarded; direct_clears_again; direct_cancels_retry; reason_code>.
 
 Inductive rkind := KUp | KHijack | KDirect.
 Record resp := { r_kind : rkind; r_code : Z; r_data : bool; r_trailers : bool }.
@@ -253,7 +262,14 @@ Definition process_error (s : st) : st * list out * phase * bool :=
         (* downStream.ResetStream -> cleanStream *)
         let '(s2, o2) := clean_stream s1 in (s2, o1 ++ o2, PEnd, true)
       else if direct s1 then
-        let s2 := s1 <| direct := false |> <| retry := None |> in
+        let '(s1r, o1r) :=
+          if direct_cancels_retry src
+          then (when (fun s => match retry s with Some _ => true | None => false end) rs_reset ;;
+                upd (fun s => s <| setup_retry := false |>)) s1
+          else (s1, []) in
+        let s2 := s1r <| direct := false |> <| retry := None |>
+                      <| again := if direct_clears_again src then PInit else again s1r |> in
+        let o1 := o1 ++ o1r in
         if c_oneway c then (s2, o1, POneway, true)
         else if negb (phase_eqb (ph s2) PUpFilter) then (s2, o1, PUpFilter, true)
         else (s2 <| x_upf := x_upf s2 || err1 |>, o1, PEnd, err1)
